@@ -1281,7 +1281,8 @@ class Manifest:
         else:
             other_manifest = other.copy()
 
-        shadow = set(other).intersection(other_manifest)
+        # VV: the entries of THIS manifest that the update replaces (@other may be a Manifest, which is not iterable)
+        shadow = set(self._manifest).intersection(other_manifest)
 
         if shadow:
             flowirLogger.warning(f"The manifest update shadows the manifest entries "
